@@ -16,6 +16,15 @@ CHECKS = {
         "(one-leaf mutations must not decode equal) and encode determinism/fixpoint. Boundary classes (int widths, string lengths, batch sizes at every "
         "position, sharing, cycles, host objects) are forced by the generator and counted in the evidence.",
    note="Trusts the harness' Iso relation and starlark.Equal; sizes <= 3002 elements, strings <= 65537 bytes; cycles through a host object's argument tuple are outside the generator (C08 covers recursion)."),
+ "C10": dict(engine="mvssim", level="exploration", section="5 C10", technique="property-based testing (rapid): differential against a reference MVS (reachability + max) plus metamorphic cache/order variations",
+   text="Generated universes (diamonds, cycles, several majors, pre-releases) and root requirement sets are resolved by mvs.BuildList and by an independent "
+        "BFS/maximum reference; the answer must be identical with warm memo, warm disk cache, cold cache and all requirement names renamed.",
+   note="Universes are served by a harness vcs.Repository through a verif-tagged dialer adapter (internal/mvs/export_verif.go); at most 7 projects / 23 tagged versions."),
+ "C11": dict(engine="mvssim", level="exploration", section="5 C11", technique="property-based testing (rapid): stateful operation sequences checked against relations over reference build lists",
+   text="Sequences of Tidy / UpgradeAll / Get(query) are applied as the CLI does; each step is judged by the statement's relations (build list preserved, "
+        "resolved version reached, nothing lowered, downgrade bound, names preserved, no requirement lost to a name collision, idempotence) using an "
+        "independent query resolver and the reference MVS; a watchdog turns a non-returning operation into a violation.",
+   note="Prefix and branch queries are only checked with the generic relations (the statement does not define what they resolve to); an error is accepted for a downgrade the reference shows to be unsatisfiable."),
  "C12": dict(engine="pure", level="exploration", section="5 C12", technique="bounded exhaustive enumeration + property-based testing (rapid): print/parse round-trip, canonical grouping, confinement oracle",
    text="All strings over {a,b,:,/,.,@} up to length 6 (quick) / 7 (thorough) and all paths over {a,.,/} up to length 7/8 are enumerated completely; "
         "rapid adds longer strings over a wider alphabet. Oracles: print/re-parse identity, one label per printed form, RelativeTo stability, and resolved "
@@ -70,6 +79,7 @@ def main():
         },
         "engines": [
             {"name": "starval", "path": "harness/starval", "serves_properties": ["C07", "C15", "C16"], "kind_free_text": "Starlark value generator (plain-data descriptors), builder with sharing/cycles/host objects, isomorphism oracle"},
+            {"name": "mvssim", "path": "harness/mvssim", "serves_properties": ["C10", "C11"], "kind_free_text": "generated requirement universes served through vcs.Repository, reference MVS and query resolver"},
             {"name": "ev", "path": "harness/ev", "serves_properties": sorted(CHECKS), "kind_free_text": "evidence collector, rapid driver, replay files, known-findings handling"},
         ],
         "checks": checks,
